@@ -10,18 +10,20 @@ open Hv.Migrate
 
 def triYes (s : String) : Bool := s == "yes"
 
-def parseFolder (s : String) : Folder :=
+def parseFolder (s : String) : Folder String :=
   ((s.splitOn ";").filter (· ≠ "")).map fun f =>
     match f.splitOn ":" with
     | [nm, segs] =>
       (nm, ((segs.splitOn ",").filter (· ≠ "")).map fun kv =>
         match kv.splitOn "=" with
-        | [k, h] => ({ key := k, data := h } : Seg)
+        | [k, h] => ({ key := k, data := h } : Seg String)
         | _ => { key := kv, data := "" })
     | _ => (f, [])
 
 def parseFault (s : String) : Fault :=
-  if s == "load" then .load
+  if s == "load" || s.startsWith "load:" || s.startsWith "read:" then .load
+  else if s == "meta" then .metaRead
+  else if s == "rmdir" then .rmdir
   else if s == "verify" then .verify
   else if s.startsWith "write:" then
     -- write 1 and 2 (header, swamp name) happen while the file is created
@@ -31,12 +33,12 @@ def parseFault (s : String) : Fault :=
   else .none
 
 /-- per key: the last value of each chunk that holds it -/
-def candidates (fo : Folder) (k : String) : List String :=
+def candidates (fo : Folder String) (k : String) : List String :=
   fo.filterMap fun f => lastOf f.2 k
 
-def keysOf (fo : Folder) : List String := ((allSegs fo).map (·.key)).eraseDups
+def keysOf (fo : Folder String) : List String := ((allSegs fo).map (·.key)).eraseDups
 
-def uniqueKeys (fo : Folder) : Bool := ((allSegs fo).map (·.key)).eraseDups.length == (allSegs fo).length
+def uniqueKeys (fo : Folder String) : Bool := ((allSegs fo).map (·.key)).eraseDups.length == (allSegs fo).length
 
 def step (cfg : MCfg) (_ : Unit) (line : String) : Unit × String :=
   match line.splitOn " | " with
@@ -48,7 +50,7 @@ def step (cfg : MCfg) (_ : Unit) (line : String) : Unit × String :=
       -- an empty key is written as the empty hex string
       let fo := parseFolder (foPart.drop 7).toString
       let fault := parseFault (ft.drop 6).toString
-      let d0 : Disk (String × List Entry) := { v1 := fo, v1Folder := true, hyd := none }
+      let d0 : Disk String (String × List (Entry String)) := { v1 := fo, v1Folder := true, hyd := none }
       let (res, d1) := migrate cfg idV2 o fault nm d0
       let resTxt := match res with
         | .success => "success" | .skippedEmpty => "skipped" | .failed ph => "failed:" ++ ph
@@ -73,7 +75,8 @@ def step (cfg : MCfg) (_ : Unit) (line : String) : Unit × String :=
              if idV2.nameOf f == nm then "ok" else "BAD", bad)
       -- Spec: a failure leaves everything as it was; V1 files go only after a success
       let flag :=
-        if failed && d1.hyd.isSome then
+        if !failed && nameTxt == "BAD" then "\t#F:C23-name-lost-when-meta-unreadable"
+        else if failed && d1.hyd.isSome then
           (match fault with
            | .write 0 => "\t#F:C23-hyd-left-after-failed-create"
            | .write _ => "\t#F:C23-hyd-left-after-failed-write"
@@ -91,7 +94,7 @@ def run (args : List String) : IO UInt32 := do
   let kv := parseArgs args
   let y := fun k => triYes (arg kv k)
   let cfg : MCfg := ⟨y "dedupeLast", y "verifyBeforeDelete", y "writeBeforeDelete", y "removeOnVerifyFail",
-                     y "removeOnWriteFail", y "removeOnOpenFail", y "emptyKeyIsError", y "verifyValues"⟩
+                     y "removeOnWriteFail", y "removeOnOpenFail", y "emptyKeyIsError", y "metaErrorAborts", y "verifyValues"⟩
   lineLoop (step cfg) ()
   return 0
 
